@@ -135,6 +135,11 @@ def simulation(args_dict):
         if verb < 1:
             cfg['simulation_options']['tqdm_opts'] = False
 
+        # The documented key `cell_number` is `cell_numbers` in the API.
+        gopts = cfg['simulation_options'].get('gridding_opts', {})
+        if 'cell_number' in gopts:
+            gopts['cell_numbers'] = gopts.pop('cell_number')
+
         # Create simulation.
         sim = simulations.Simulation(
                 survey=survey,
